@@ -1,4 +1,5 @@
 import ZV.Model.C13
+import ZV.Model.C13Der
 /-! line protocol for C13
 
   `c13 decide <outerOk> <status> <typeOk> <basicOk> <rtag> <rok> <ncerts> <c0ok> <vEResp> <vICert> <vIResp>
@@ -10,6 +11,15 @@ import ZV.Model.C13
             <sigchoice> <nsec> <tzoff> <nExt> <keyKind 0 rsa|1 p224|2 p256|3 p384|4 p521|5 other curve|6 other key> <requested x509.SignatureAlgorithm>`
      CreateResponse then ParseResponse in the toy signature scheme `sign k m = k :: m`; whether the signer key /
      requested algorithm is accepted and which algorithm ends up in the response come from `signingParams`.
+  `c13 bytes <same arguments as decide>`   ParseResponseForCert FROM THE BYTES: the model decodes `<derhex>` itself (ZV.Model.C13Der)
+                             and feeds `parse`; of the abstract fields on the line only `<c0ok>` (x509.ParseCertificate on the first
+                             embedded certificate), the three signature-primitive bits, `<issuer>` and `<cert>` are used
+  `c13 schema <ocspRequest|responseASN1|basicResponse>`   the schema term of that Go type, rendered as the harness renders the declaration
+  `c13 der <hex>`            the two asn1.Unmarshal calls of ParseResponseForCert through ZV.Model.C18 on the schema terms of
+                             ZV.Model.C13Der: `o:err` | `o:<status>,<type oid|->,<rest>,<body len> b:err` | `… b:<fields>`
+  `c13 rq <hash> <nameHash> <keyHash> <serial>`   Request.Marshal, then ParseRequest of the bytes: `merr` | `<der> ok …` | `<der> err`
+  `c13 rqd <hex>`            ParseRequest on given bytes
+  `c13 time <23|24> <hex>`   parseUTCTime / parseGeneralizedTime (strict): `ok <unix seconds>` | `err`
   output: `err` | `err-create` | `panic` |
           `ok <idx> <good|revoked|unknown> <serial> <this> <next> <revokedAt|-> <reason|-> <hash> <name|keyhash> <cert 0|1>`
           (resp lines: followed by ` sig=<x509.SignatureAlgorithm of the parsed response>`) -/
@@ -127,10 +137,116 @@ def handleResp (a : List String) : String :=
     | _, _, _, _, _, _, _, _, _ => "bad-op"
   | _ => "bad-op"
 
+/-! schema lines: the schema terms rendered as the harness renders the Go declarations -/
+
+def showParams (p : C18.Params) : String :=
+  let parts : List String :=
+    (if p.optional then ["o"] else []) ++ (if p.explicit then ["e"] else []) ++ (if p.application then ["a"] else []) ++
+    (if p.priv then ["v"] else []) ++ (match p.defaultValue with | some d => ["d" ++ toString d] | none => []) ++
+    (match p.tag with | some t => ["t" ++ toString t] | none => []) ++
+    (if p.stringType ≠ 0 then ["s" ++ toString p.stringType] else []) ++
+    (if p.timeType ≠ 0 then ["m" ++ toString p.timeType] else []) ++
+    (if p.set then ["S"] else []) ++ (if p.omitEmpty then ["E"] else [])
+  if parts.isEmpty then "-" else ",".intercalate parts
+
+mutual
+def showSchema : C18.Schema → String
+  | .int64 => "i64" | .int32 => "i32" | .enum => "enum" | .bigint => "big" | .bool => "bool" | .oid => "oid"
+  | .bits => "bits" | .octets => "oct" | .str => "str" | .raw => "raw" | .flag => "flag"
+  | .struct fs => "{" ++ ";".intercalate (showFields fs) ++ "}"
+  | .seqOf sn e => (if sn then "LS(" else "L(") ++ showSchema e ++ ")"
+  | .fnil => "?" | .fcons _ _ _ => "?"
+def showFields : C18.Schema → List String
+  | .fcons p s rest => (showParams p ++ ":" ++ showSchema s) :: showFields rest
+  | _ => []
+end
+
+def handleSchema (n : String) : String :=
+  if n == "ocspRequest" then showSchema ocspRequestS
+  else if n == "responseASN1" then showSchema responseASN1S
+  else if n == "basicResponse" then showSchema basicResponseS
+  else "bad-op"
+
+/-! DER lines -/
+
+def showOid (o : List Int) : String := if o.isEmpty then "-" else ".".intercalate (o.map toString)
+
+def showExt (e : List Int × Bool × Bytes) : String :=
+  showOid e.1 ++ ":" ++ (if e.2.1 then "1" else "0") ++ ":" ++ toHex e.2.2
+
+def showDSingle (s : DSingle) : String :=
+  "/".intercalate [showOid s.hashOid, toHex s.hashParams, toHex s.nameHash, toHex s.keyHash, toString s.serial,
+    (if s.good then "1" else "0"), (if s.unknown then "1" else "0"), toString s.revokedAt, toString s.reason,
+    toString s.thisUpdate, (match s.nextUpdate with | some x => toString x | none => toString zeroTime),
+    (if s.exts.isEmpty then "-" else "+".intercalate (s.exts.map showExt))]
+
+def showDBasic (b : DBasic) (rest : Bytes) : String :=
+  joinWith " " ["rest=" ++ toString rest.length, "tbs=" ++ toHex b.tbs, "v=" ++ toString b.version,
+    "rid=" ++ toString b.ridClass ++ "/" ++ toString b.ridTag ++ "/" ++ (if b.ridCompound then "1" else "0") ++ "/" ++ toHex b.ridBytes,
+    "pa=" ++ toString b.producedAt, "alg=" ++ showOid b.sigOid ++ "/" ++ toHex b.sigParams,
+    "sig=" ++ toHex b.sigBytes ++ "/" ++ toString b.sigBitLen,
+    "certs=" ++ toString b.certs.length ++ ":" ++ ",".intercalate (b.certs.map (fun c => toString c.length)),
+    "s=" ++ (if b.singles.isEmpty then "-" else ";".intercalate (b.singles.map showDSingle))]
+
+def handleDer (h : String) : String :=
+  match ofHex h with
+  | none => "bad-op"
+  | some der =>
+    match decodeOuter der with
+    | .err => "o:err"
+    | .shape => "shape"
+    | .ok (st, ty, body, rest) =>
+      "o:" ++ toString st ++ "," ++ showOid ty ++ "," ++ toString rest.length ++ "," ++ toString body.length ++ " b:" ++
+        (match decodeBasic body with
+         | .err => "err"
+         | .shape => "shape"
+         | .ok (b, rest2) => showDBasic b rest2)
+
+def showReq (r : Req) : String :=
+  joinWith " " [toString r.hash, toHex r.nameHash, toHex r.keyHash, toString r.serial]
+
+def handleRq (a : List String) : String :=
+  match a with
+  | [h, nh, kh, sn] =>
+    match h.toNat?, ofHex nh, ofHex kh, parseInt sn with
+    | some h, some nh, some kh, some sn =>
+      (match marshalRequest { hash := h, nameHash := nh, keyHash := kh, serial := sn } with
+       | .ok der => toHex der ++ " " ++ showRes showReq (parseRequest der)
+       | .err => "merr"
+       | .panic => "panic")
+    | _, _, _, _ => "bad-op"
+  | _ => "bad-op"
+
+def handleBytes (a : List String) : String :=
+  match a with
+  | [_, _, _, _, _, _, _, c0, v1, v2, v3, iss, ce, _, _, dh] =>
+    match pBool c0, pBool v1, pBool v2, pBool v3, pBool iss, pCert ce, ofHex dh with
+    | some c0, some v1, some v2, some v3, some iss, some ce, some der =>
+      let e : ECert Nat Nat := { key := 1, alg := 1, tbs := 1, sig := 1 }
+      (match parseBytes (oracle v1 v2 v3) (fun _ => (0 : Nat)) (fun _ _ => (0 : Nat)) (fun _ => 0)
+          (fun _ => if c0 then some e else none) der ce (if iss then some 0 else none) with
+       | .ok r => showRes showOut r
+       | .err => "err"
+       | .shape => "shape")
+    | _, _, _, _, _, _, _ => "bad-op"
+  | _ => "bad-op"
+
 def handle (args : List String) : String :=
   match args with
   | "decide" :: rest => handleDecide rest
+  | "bytes" :: rest => handleBytes rest
   | "resp" :: rest => handleResp rest
+  | ["der", h] => handleDer h
+  | ["schema", n] => handleSchema n
+  | "rq" :: rest => handleRq rest
+  | ["rqd", h] =>
+    (match ofHex h with
+     | some der => showRes showReq (parseRequest der)
+     | none => "bad-op")
+  | ["time", tg, h] =>
+    (match tg.toNat?, ofHex h with
+     | some tg, some bs => showRes toString (parseTime tg bs)
+     | _, _ => "bad-op")
   | _ => "bad-op"
 
 end ZV.C13
